@@ -110,9 +110,12 @@ var fieldTypes = []Ty{TyText, TyInt, TyFloat, TyBool, TyListText, TyListInt}
 // GenSelect draws a SELECT statement whose meaning the reference evaluator
 // defines (unless o.Exotic).
 func GenSelect(t *rapid.T, kind StoreKind, pairs []Pair, o SelOpts) *Stmt {
-	c := &GenCtx{Kind: kind, Pairs: pairs}
+	c := &GenCtx{Kind: kind, Pairs: pairs, Exotic: o.Exotic}
 	if o.Aliases {
 		c.RefBias = 35
+		if o.Exotic {
+			c.RefBias = 20
+		}
 	}
 	st := &Stmt{Kind: "select"}
 	aggregate := o.Aggregate == 2 || (o.Aggregate == 1 && rapid.IntRange(0, 3).Draw(t, "aggregate") == 0)
@@ -281,7 +284,7 @@ func genAggregateSelect(t *rapid.T, c *GenCtx, st *Stmt, o SelOpts) {
 		copy(st.Fields[1:], st.Fields[:len(st.Fields)-1])
 		st.Fields[0] = last
 	}
-	plain := &GenCtx{Kind: c.Kind, Pairs: c.Pairs}
+	plain := &GenCtx{Kind: c.Kind, Pairs: c.Pairs, Exotic: c.Exotic}
 	st.Where = plain.GenBool(t, rapid.IntRange(0, 2).Draw(t, "aggWhereDepth"))
 }
 
@@ -322,6 +325,9 @@ func genAggrCall(t *rapid.T, c *GenCtx) *Node {
 		arg := rapid.SampledFrom([]*Node{Key(), Value(), Call("strlen", Key()), Call("upper", Key())}).Draw(t, "concatArg")
 		return Call("group_concat", arg, Str(rapid.SampledFrom([]string{",", "", "ab"}).Draw(t, "concatSep")))
 	default:
+		if c.Exotic && rapid.Bool().Draw(t, "quantile") {
+			return Call("quantile", aggrArg(t, c), Float(rapid.SampledFrom([]string{"0.5", "0.9", "0.0", "1.0"}).Draw(t, "quantileP")))
+		}
 		arg := rapid.SampledFrom([]*Node{Key(), Value(), Call("strlen", Key())}).Draw(t, "arrayaggArg")
 		return Call("json_arrayagg", arg)
 	}
@@ -345,4 +351,73 @@ func genAggrExpr(t *rapid.T, c *GenCtx) *Node {
 		return Bin("/", a, Call("count", Int(1)))
 	}
 	return a
+}
+
+// ---- writes -----------------------------------------------------------------
+
+// GenPut draws a PUT statement: 1..6 pairs; keys are text/integer
+// expressions without key/value, values may use `key`.
+func GenPut(t *rapid.T, kind StoreKind, pairs []Pair, exotic bool) *Stmt {
+	kc := &GenCtx{Kind: kind, Pairs: pairs, NoKey: true, NoValue: true, Exotic: exotic}
+	vc := &GenCtx{Kind: kind, Pairs: pairs, NoValue: true, Exotic: exotic}
+	st := &Stmt{Kind: "put"}
+	n := rapid.IntRange(1, 6).Draw(t, "nput")
+	var prevKey *Node
+	for i := 0; i < n; i++ {
+		var k *Node
+		switch {
+		case prevKey != nil && rapid.IntRange(0, 3).Draw(t, "dupKey") == 0:
+			k = prevKey.Clone()
+		case rapid.IntRange(0, 4).Draw(t, "intKey") == 0:
+			k = kc.GenInt(t, 1)
+		default:
+			k = kc.GenText(t, rapid.IntRange(0, 2).Draw(t, "putKeyDepth"))
+		}
+		var v *Node
+		if rapid.IntRange(0, 4).Draw(t, "intVal") == 0 {
+			v = vc.GenInt(t, 1)
+		} else {
+			v = vc.GenText(t, rapid.IntRange(0, 2).Draw(t, "putValDepth"))
+		}
+		st.Pairs = append(st.Pairs, [2]*Node{k, v})
+		prevKey = k
+	}
+	return st
+}
+
+func GenRemove(t *rapid.T, kind StoreKind, pairs []Pair, exotic bool) *Stmt {
+	kc := &GenCtx{Kind: kind, Pairs: pairs, NoKey: true, NoValue: true, Exotic: exotic}
+	st := &Stmt{Kind: "remove"}
+	n := rapid.IntRange(1, 6).Draw(t, "nremove")
+	for i := 0; i < n; i++ {
+		if rapid.IntRange(0, 5).Draw(t, "intRemoveKey") == 0 {
+			st.Keys = append(st.Keys, kc.GenInt(t, 1))
+		} else {
+			st.Keys = append(st.Keys, kc.GenText(t, rapid.IntRange(0, 2).Draw(t, "removeDepth")))
+		}
+	}
+	return st
+}
+
+func GenDelete(t *rapid.T, kind StoreKind, pairs []Pair, exotic bool) *Stmt {
+	c := &GenCtx{Kind: kind, Pairs: pairs, Exotic: exotic}
+	st := &Stmt{Kind: "delete", Where: c.GenBool(t, rapid.IntRange(0, 3).Draw(t, "deleteDepth"))}
+	if rapid.IntRange(0, 2).Draw(t, "deleteLimited") == 0 {
+		st.Lim = GenLimit(t, len(pairs))
+	}
+	return st
+}
+
+// GenAnyStmt draws a statement of any kind of the full language.
+func GenAnyStmt(t *rapid.T, kind StoreKind, pairs []Pair, exotic bool) *Stmt {
+	switch rapid.IntRange(0, 9).Draw(t, "stmtKind") {
+	case 0:
+		return GenPut(t, kind, pairs, exotic)
+	case 1:
+		return GenRemove(t, kind, pairs, exotic)
+	case 2:
+		return GenDelete(t, kind, pairs, exotic)
+	default:
+		return GenSelect(t, kind, pairs, SelOpts{Aliases: true, Aggregate: 1, Order: true, Limit: true, Exotic: exotic})
+	}
 }
